@@ -2,6 +2,7 @@
 use crate::common::*;
 use arbitrary::Unstructured;
 use serde::{Deserialize, Serialize};
+use syltmodel::ast::*;
 use syltmodel::gen::{Gen, GenCfg};
 use syltmodel::print::{Choices, Plan as SurfacePlan};
 use vcore::{compile, Check, Labels, Outcome, Plan, Project, Stats, Step, Tape, Tier, Verdict};
@@ -74,7 +75,21 @@ impl Check for C14 {
         // known finding (do-block as first statement of a branch, inside brackets): avoided for 80 % of the budget
         let raw = t.chance(1, 5);
         cfg.avoid_leading_do_block = !raw;
-        let prog = Gen::new(&mut t, cfg).program();
+        let mut prog = Gen::new(&mut t, cfg).program();
+        // 1 program in 8 is made ill-typed at a returned value (a trailing expression or the value of a `ret`): the two
+        // spellings of "return this" must agree on acceptance for programs that are wrong as well
+        if t.chance(1, 8) {
+            let (_, sites) = syltmodel::plant::sites(&prog);
+            let cands: Vec<usize> = (0..sites.len())
+                .filter(|i| matches!(sites[*i].ctx.placement, syltmodel::plant::Placement::ReturnValue) && sites[*i].ctx.ret != Ty::Void && sites[*i].ty != Ty::Void)
+                .collect();
+            if !cands.is_empty() {
+                let si = *t.pick(&cands);
+                let ty = sites[si].ty.clone();
+                let wrong = if ty == Ty::Str { int(7) } else { string("zq") };
+                prog = syltmodel::plant::replace_expr(&prog, si, Expr { ty, kind: wrong.kind });
+            }
+        }
         let mut a = SurfacePlan::default();
         let mut b = random_surface(&mut t, !raw);
         // a third of the programs are written in a random top-level order - the same one in both renderings, so that the
@@ -102,6 +117,18 @@ impl Check for C14 {
             Outcome::Accepted(b) => b,
             Outcome::Rejected { errors, .. } => {
                 labels.add(format!("base-rejected:{}:{}", errors[0].kind, errors[0].sub));
+                // rejected in the default rendering: the other rendering (same program, other sugar / layout) must be too
+                if let Outcome::Accepted(_) = compile(&Project::single(pb.text.clone())) {
+                    return Verdict::Violation {
+                        signature: format!("C14/acceptance-of-rejected/{}:{}", errors[0].kind, message_class(&errors[0].message).trim()),
+                        detail: format!(
+                            "the default rendering is rejected ({}), the re-rendering (same program, other sugar/layout) is accepted\n--- default ---\n{}\n--- variant ---\n{}",
+                            oa.short(),
+                            pa.text,
+                            pb.text
+                        ),
+                    };
+                }
                 return Verdict::Discard("base-rejected".into());
             }
             Outcome::Panicked { .. } => return Verdict::Discard("compiler-panicked".into()),
